@@ -23,7 +23,7 @@ def src(idm):
 def features(d):
     import re
     try:
-        m = re.search(r'--features[ =]([A-Za-z0-9_,/-]+)', open(d + '/demo/RUN.md').read())
+        m = re.search(r'--features[ =]("[^"]+"|[A-Za-z0-9_,/-]+)', open(d + '/demo/RUN.md').read())
         return ' --features ' + m.group(1) if m else ''
     except Exception:
         return ''
